@@ -120,27 +120,47 @@ func c19Exec(c *Ctx, cs c19Case) (outcome string) {
 		}
 	}
 	// expansion (in-document references, and references into the one external document the loader serves)
-	var sw2 spec.Swagger
-	json.Unmarshal(cs.Doc, &sw2)
-	err = spec.ExpandSpec(&sw2, &spec.ExpandOptions{RelativeBase: "file:///r/s/root.json", PathLoader: func(p string) (json.RawMessage, error) {
+	loader := func(p string) (json.RawMessage, error) {
 		if p == "file:///r/s/ext.json" {
-			// (a3 / r3: aliases inside the external document, under names the root uses for its own aliases)
+			// (a2 / r2: aliases inside the external document, under names the root uses for its own aliases)
 			return json.RawMessage(`{"definitions":` + c19Defs + `,"parameters":` + c19Params + `,"responses":` + c19Resps +
 				`,"x-parameters":{"a2":{"$ref":"#/x-parameters/a3"},"a3":{"$ref":"#/parameters/a"}},"x-responses":{"r2":{"$ref":"#/x-responses/r3"},"r3":{"$ref":"#/responses/a"}}}`), nil
 		}
 		return nil, fmt.Errorf("no such external document in this check: %s", p)
-	}})
-	if err != nil {
-		return outcome + "+expansion-error"
 	}
-	exp, err := json.Marshal(sw2)
-	if err != nil {
-		viol("expanded-document-not-encodable", err.Error(), nil)
-		return "encode-error"
-	}
-	if ok, why := c19V.valid(exp); !ok {
-		viol("expansion-result-invalid", why, exp)
-		return "expansion-result-invalid"
+	var exp []byte
+	for _, skip := range []bool{false, true} {
+		if skip && !bytes.Contains(cs.Doc, []byte(`"$ref"`)) {
+			break // without references, expansion with SkipSchemas is the same computation
+		}
+		var sw2 spec.Swagger
+		json.Unmarshal(cs.Doc, &sw2)
+		err = spec.ExpandSpec(&sw2, &spec.ExpandOptions{RelativeBase: "file:///r/s/root.json", PathLoader: loader, SkipSchemas: skip})
+		if err != nil {
+			if skip {
+				break
+			}
+			return outcome + "+expansion-error"
+		}
+		out, err := json.Marshal(sw2)
+		if err != nil {
+			viol("expanded-document-not-encodable", err.Error(), nil)
+			return "encode-error"
+		}
+		if skip && (bytes.Equal(out, exp) || bytes.Equal(out, enc)) {
+			break // already validated
+		}
+		if ok, why := c19V.valid(out); !ok {
+			class := "expansion-result-invalid"
+			if skip {
+				why = "with SkipSchemas: " + why
+			}
+			viol(class, why, out)
+			return class
+		}
+		if !skip {
+			exp = out
+		}
 	}
 	return outcome + "+expansion-ok"
 }
@@ -255,7 +275,7 @@ func c19Run(c *Ctx) {
 func init() {
 	register(&CheckDef{
 		ID: "C19", Build: "light", Run: c19Run, RunCase: c19RunCase,
-		Rule:        "states = the C01 state space embedded up to the Swagger root (cost <= bound at every route; one deeper for Swagger, response, parameter, operation, securityScheme, responses, items, header states through their first route), completed with referable definitions / parameters / responses so that in-document $refs resolve, de-duplicated, and FILTERED by an independent validator (python jsonschema Draft4Validator on the schemas/v2/schema.json of the working tree); for every valid document the re-encoding and the result of a successful ExpandSpec are validated by the same independent validator; non-trivial = document accepted by the validator",
+		Rule:        "states = the C01 state space embedded up to the Swagger root (cost <= bound at every route; one deeper for Swagger, response, parameter, operation, securityScheme, responses, items, header states through their first route), completed with referable definitions / parameters / responses so that in-document $refs resolve, de-duplicated, and FILTERED by an independent validator (python jsonschema Draft4Validator on the schemas/v2/schema.json of the working tree); for every valid document the re-encoding (also of the same text with escaped member names) and the result of a successful ExpandSpec, with and without SkipSchemas, are validated by the same independent validator; non-trivial = document accepted by the validator",
 		Assumptions: []string{"python3-vt with jsonschema is the independent validity oracle; the shipped schema's references to the draft-04 meta-schema are served from schemas/jsonschema-draft-04.json", "besides in-document references, references into one external document (relative and canonical absolute spelling) are generated; multi-document expansion proper is C02's business"},
 		MinOutcomes: 2,
 	})
